@@ -644,10 +644,11 @@ func classes(c Case) []string {
 func TestProp(t *testing.T) {
 	defer pbt.Recover(t)
 	_ = flag.Set("rapid.shrinktime", "40s")
-	pbt.Describe("rapid schedule programs on a real terminfo screen over a fake tty with real goroutines: an input stream of 0-120 sequence-numbered tokens (CJK runes numbered by code point, SGR mouse reports numbered by coordinates, paste brackets, focus reports, a function key) delivered in reads that end at token boundaries; 0-3 posting goroutines (PostEvent with its result recorded, or PostEventWait) with yields; resize notifications; a consumer that polls in bursts and pauses (long enough for both internal queues to fill) or consumes through ChannelEvents; optional HasPendingEvent checks. Oracle: the input-derived events delivered equal the decoded input stream exactly (no loss, duplication, reordering); per poster the delivered payloads equal the accepted ones in order and rejected (ErrEventQFull) ones never appear; a true HasPendingEvent is followed by a PollEvent that returns within 5 s; every delivered event is non-nil, When() does not panic and lies between case start and delivery; ChannelEvents closes its channel after Fini and not at Suspend; in a third of the cases, once everything was delivered: Suspend, events posted while suspended are delivered, Resume, and a second input stream is delivered exactly. A quarter of the cases use a polling tty (Read returns (0, nil) every 3 ms while idle); half end with a lone ESC keypress that must come out as one Esc key once the 50 ms timeout passes. split-backpressure: mouse reports split across three reads that arrive within 25 ms while the application does not poll for 130 ms (more events than the queue holds in between): delivered exactly as typed (odd shards run with the old timer-channel semantics; a wrong delivery is believed after three plays in a row, plays the machine was too slow for are discarded and counted). Non-trivial = at least 25 input tokens (more than both queues hold), a poster and a polling pause; distinct = hash of the case.",
+	pbt.Describe("rapid schedule programs on a real terminfo screen over a fake tty with real goroutines: an input stream of 0-120 sequence-numbered tokens (CJK runes numbered by code point, SGR mouse reports numbered by coordinates, paste brackets, focus reports, a function key) delivered in reads that end at token boundaries; 0-3 posting goroutines (PostEvent with its result recorded, or PostEventWait) with yields; resize notifications; a consumer that polls in bursts and pauses (long enough for both internal queues to fill) or consumes through ChannelEvents; optional HasPendingEvent checks. Oracle: the input-derived events delivered equal the decoded input stream exactly (no loss, duplication, reordering); per poster the delivered payloads equal the accepted ones in order and rejected (ErrEventQFull) ones never appear; a true HasPendingEvent is followed by a PollEvent that returns within 5 s; every delivered event is non-nil, When() does not panic and lies between case start and delivery; ChannelEvents closes its channel after Fini and not at Suspend; in a third of the cases, once everything was delivered: Suspend, events posted while suspended are delivered, Resume, and a second input stream is delivered exactly. A quarter of the cases use a polling tty (Read returns (0, nil) every 3 ms while idle); half end with a lone ESC keypress that must come out as one Esc key once the 50 ms timeout passes. channel-close: ChannelEvents on a simulation or terminfo screen with 0-8 queued events, a consumer that takes some and then stops, an application channel of capacity 0-2, ended by quit or Fini after a settling time of 0-10 ms: the channel is closed within 5 s whatever the forwarder was doing (non-trivial = it held an event it could not hand over). split-backpressure: mouse reports split across three reads that arrive within 25 ms while the application does not poll for 130 ms (more events than the queue holds in between): delivered exactly as typed (odd shards run with the old timer-channel semantics; a wrong delivery is believed after three plays in a row, plays the machine was too slow for are discarded and counted). Non-trivial = at least 25 input tokens (more than both queues hold), a poster and a polling pause; distinct = hash of the case.",
 		"reads end at token boundaries: a sequence split across reads under back-pressure depends on the 50 ms escape timer (timing, not asserted here; C02 covers chunking without timeouts)",
 		"EventResize may legitimately be dropped when the queue is full and is ignored by the oracle",
 		"schedules are those the Go scheduler produces; loss is declared only after producers finished, the tty was fully read and PollEvent stayed idle for three 1.5 s periods")
 	pbt.Check(t, "program", pbt.Pick(200, 3000), pbt.Spec[Case]{Gen: genCase, Prop: prop, NonTrivial: nonTrivial, Classes: classes})
+	pbt.Check(t, "channel-close", pbt.Pick(150, 3000), pbt.Spec[CloseCase]{Gen: genClose, Prop: closeProp, NonTrivial: closeNonTrivial})
 	pbt.Check(t, "split-backpressure", pbt.Pick(12, 200), pbt.Spec[SplitCase]{Gen: genSplit, Prop: splitProp})
 }
